@@ -25,10 +25,7 @@ def overlapping_recalls(ctx, n):
   k = rng.randint(3, 8)
   nthreads = rng.randint(2, 3)
   per = [rng.randint(1, 2) for _ in range(nthreads)]
-  while sum(per) >= k:
-    per[rng.randrange(nthreads)] -= 1 if max(per) > 1 else 0
-    if sum(per) >= k:
-      k += 1
+  k = max(k, sum(per) + rng.randint(1, 2))      # fewer recalls than deferred events, every thread recalls at least once
   pol = dict(policy='random', p_switch=rng.choice([0.1, 0.3, 0.6])) if rng.random() < 0.7 else dict(policy='pct', pct_depth=3, pct_len=150)
   s = ds.Sched(seed=rng.randrange(1 << 30), max_steps=500000, **pol)
   ds.install(s, line_mods=[H], line_funcs={H: aosim.HSM_FUNCS}, log_deque=False)
